@@ -130,6 +130,9 @@ def replay_all(repo, by_ob, scratch, log):
     path = os.path.join(scratch, "replay_strlist.pl")
     open(path, "w", encoding="utf-8").write(PROGRAM)
     p = _run(binary, path)
+    if "overwriting" in (p.stdout + p.stderr):
+        log.append("oracle program is malformed (discontiguous clauses were overwritten): not used")
+        return {ob: None for ob in by_ob}
     fails = []
     for line in p.stdout.split("\n"):
         m = re.match(r"MISMATCH (.*) string=(.*) cells=(.*)$", line)
